@@ -162,3 +162,226 @@ Example C07_example :
   In (B "Question", FamQuestion) all_names /\ registry (B "Question") = Some KQuestion /\
   sw_mentions sw_JSONLoadItem (B "Emoji") = false.
 Proof. repeat split; vm_compute; auto 60. Qed.
+
+(* ---- "... is the same concrete Go type and (when decoded) carries the id and properties that were written",
+   over the codec models (b32) ---- *)
+(* The theorems above are about the dispatch tables in isolation.  These are about the executable codec models the
+   correspondence checks run against the code (Model/JsonDec.v, Model/JsonEnc.v, Model/Gob.v):
+   KIND HALF, generic in the dispatch tables.  JSON: for every decoder whose registry and JSONLoadItem switch satisfy the
+   decidable json_kind_cond, every listed name n and EVERY document whose type member is n, JSONLoadItem returns - at
+   top level, in an item position, in a list position, at any nesting depth - a pointer to the struct kind of n's family,
+   or nothing (an object it finds empty).  Gob: for every environment satisfying gob_whole_ok (C03) and gob_kind_cond,
+   every listed name n and EVERY value x of that struct kind with Type n whose properties hold values of their Go types:
+   what gobEncodeItem writes for x is a property map whose "type" entry is n, and gobDecodeItem on it - at top level,
+   or one or more levels down as the bytes of a nested property - returns, when it returns a value, a pointer to that
+   struct kind.  The conditions are evaluated on the tables of this run; a case moved to another family breaks them and
+   the diagnosis names the entry.
+   PAYLOAD HALF, inherited: JSON from C01_roundtrip_partial (hypotheses: x in wf_vocab, nesting <= 64), gob from
+   C03_roundtrip (hypothesis: x in wf_gob genv): the decoded value has the kind and every property that was set, in
+   the normal form of those theorems. *)
+From AP.Model Require Import Pred Text JsonTables JsonDec JsonNorm JsonCodec GobTables Gob GobCheck GobNorm GobWhole GobInst KindRt.
+From AP.Proofs Require Import KindRtP KindPayloadP GobRtP.
+Require AP.Props.C01 AP.Props.C03.
+
+(* JSON, one level of JSONLoadItem at any depth, for EVERY decoder tables satisfying the condition *)
+Theorem C07_json_kind_generic : forall jr lay reg lsw acts actors links names,
+  json_kind_cond reg lsw names = true ->
+  forall n f fuel v i, In (n, f) names -> type_name_of v = n ->
+  load_item jr lay reg lsw acts actors links fuel v = Some i -> kind_or_nothing (kind_of_family f) i.
+Proof. exact json_kind_load. Qed.
+
+Theorem C07_json_kind_top_generic : forall jr lay reg lsw acts actors links names,
+  json_kind_cond reg lsw names = true ->
+  forall n f b kvs i, In (n, f) names -> fj_parse b = Ok (FObj kvs) -> type_name_of (FObj kvs) = n ->
+  unmarshal_json jr lay reg lsw acts actors links b = Some (Ok i) -> kind_or_nothing (kind_of_family f) i.
+Proof. exact json_kind_top. Qed.
+
+Theorem C07_json_kind_item_position_generic : forall jr lay reg lsw acts actors links names,
+  json_kind_cond reg lsw names = true ->
+  forall n f fuel val prop kvs i, In (n, f) names ->
+  jget val prop = Some (FObj kvs) -> type_name_of (FObj kvs) = n ->
+  (jget_item (load_item jr lay reg lsw acts actors links fuel) val prop = Some i \/
+   jget_uri_item (load_item jr lay reg lsw acts actors links fuel) val prop = Some i) ->
+  kind_or_nothing (kind_of_family f) i.
+Proof. exact json_kind_item_position. Qed.
+
+(* every member of a loaded list is what JSONLoadItem made of one element of the array, is not nothing, and has the
+   kind of the element's type name *)
+Theorem C07_json_kind_list_position_generic : forall jr lay reg lsw acts actors links names,
+  json_kind_cond reg lsw names = true ->
+  forall n f fuel val prop l its i, In (n, f) names ->
+  jget val prop = Some (FArr l) ->
+  jget_items (load_item jr lay reg lsw acts actors links fuel) val prop = Some (Some its) -> In i its ->
+  exists v, In v l /\ load_item jr lay reg lsw acts actors links fuel v = Some i /\ i <> INil /\
+            (type_name_of v = n -> has_kind (kind_of_family f) i).
+Proof. exact json_kind_list_position. Qed.
+
+(* the condition on the registry and the JSONLoadItem switch regenerated on this run, all names of the vocabulary and
+   the generic names; the diagnosis first (Coq's error shows the name with what the two switches answer) *)
+Theorem C07_json_kind_first_bad : json_kind_first_bad JsonCodec.registry JsonCodec.load_switch all_names = None.
+Proof. vm_compute. reflexivity. Qed.
+Theorem C07_json_kind_table : json_kind_cond JsonCodec.registry JsonCodec.load_switch all_names = true.
+Proof. vm_compute. reflexivity. Qed.
+
+(* hence, for the decoder of this tree *)
+Theorem C07_json_kind : forall n f b kvs i, In (n, f) all_names ->
+  fj_parse b = Ok (FObj kvs) -> type_name_of (FObj kvs) = n -> dec b = Some (Ok i) -> kind_or_nothing (kind_of_family f) i.
+Proof. exact (C07_json_kind_top_generic _ _ _ _ _ _ _ _ C07_json_kind_table). Qed.
+
+(* gob, for EVERY environment satisfying the conditions: what is written, and what any decoder level reads back *)
+Theorem C07_gob_kind_written_generic : forall E names, gob_whole_ok E = true -> gob_kind_cond E names = true ->
+  forall n f p fs, In (n, f) names -> get_str F_Type fs = n -> shapes_ok E (kind_of_family f) fs ->
+  exists mm, genc E (IObj p (kind_of_family f) fs) = WMap mm /\
+             match aget (B "type") mm with Some r => wire_bytes_or_garbage r | None => [] end = n.
+Proof. intros E names Hw Hc n f p fs. exact (gob_kind_written E Hw names Hc n f p fs). Qed.
+
+Theorem C07_gob_kind_generic : forall E names, gob_whole_ok E = true -> gob_kind_cond E names = true ->
+  forall n f p fs, In (n, f) names -> get_str F_Type fs = n -> shapes_ok E (kind_of_family f) fs ->
+  (forall y, gdec E (genc E (IObj p (kind_of_family f) fs)) = Ok y -> has_kind (kind_of_family f) y) /\
+  (forall m y, dec_fuel E m (genc E (IObj p (kind_of_family f) fs)) = Ok y -> has_kind (kind_of_family f) y).
+Proof.
+  intros E names Hw Hc n f p fs Hin Ht Hs. split.
+  - exact (gob_kind_top E Hw names Hc n f p fs Hin Ht Hs).
+  - exact (gob_kind_nested E Hw names Hc n f p fs Hin Ht Hs).
+Qed.
+
+Theorem C07_gob_kind_first_bad : gob_kind_first_bad genv all_names = None.
+Proof. vm_compute. reflexivity. Qed.
+Theorem C07_gob_kind_table : gob_kind_cond genv all_names = true.
+Proof. vm_compute. reflexivity. Qed.
+
+Theorem C07_gob_kind : forall n f p fs, In (n, f) all_names -> get_str F_Type fs = n ->
+  shapes_ok genv (kind_of_family f) fs ->
+  (forall y, gdec genv (genc genv (IObj p (kind_of_family f) fs)) = Ok y -> has_kind (kind_of_family f) y) /\
+  (forall m y, dec_fuel genv m (genc genv (IObj p (kind_of_family f) fs)) = Ok y -> has_kind (kind_of_family f) y).
+Proof. exact (C07_gob_kind_generic genv all_names AP.Props.C03.C03_whole_condition C07_gob_kind_table). Qed.
+
+(* ---- payload ---- *)
+(* JSON, top level: inherits from C01_roundtrip_partial the hypotheses wf_vocab x and nesting <= 64.  The decoded value
+   is a pointer to the struct of n's family and holds every property that was set (the id among them), each in C01's
+   normal form (norm_fval: instants in UTC whole seconds, a lone tagged text untagged, nested values normalised) *)
+Theorem C07_json_payload : forall n f p fs, In (n, f) all_names -> get_str F_Type fs = n ->
+  AP.Props.C01.wf_vocab (IObj p (kind_of_family f) fs) = true ->
+  (ddepth (IObj p (kind_of_family f) fs) <= 64)%nat ->
+  exists b fs', enc (IObj p (kind_of_family f) fs) = Some b /\
+                dec b = Some (Ok (IObj true (kind_of_family f) fs')) /\
+                forall g v, getf g fs = Some v -> getf g fs' = Some (JsonNorm.norm_fval layout_of v).
+Proof.
+  intros n f p fs _ _ Hw Hd.
+  destruct (AP.Props.C01.C01_roundtrip_partial _ Hw Hd) as (b & He & _ & Hdec).
+  destruct (wf_norm_keeps layout_of JsonCodec.registry JsonCodec.load_switch tl_ActivityTypes tl_ActorTypes tl_LinkTypes
+              p (kind_of_family f) fs Hw) as (fs' & Hn & Hk).
+  exists b, fs'. split; [exact He|]. split; [|exact Hk]. unfold AP.Props.C01.norm in Hdec. rewrite Hn in Hdec. exact Hdec.
+Qed.
+
+(* gob, top level: inherits from C03_roundtrip the hypothesis wf_gob genv x; same kind, and the same unset/empty normal
+   form (Model/GobNorm.v) as the value that was written *)
+Theorem C07_gob_payload : forall n f p fs, In (n, f) all_names -> get_str F_Type fs = n ->
+  wf_gob genv (IObj p (kind_of_family f) fs) = true ->
+  exists fs', gdec genv (genc genv (IObj p (kind_of_family f) fs)) = Ok (IObj true (kind_of_family f) fs') /\
+              GobNorm.norm_item layout_of layout_endpoints (IObj true (kind_of_family f) fs')
+              = GobNorm.norm_item layout_of layout_endpoints (IObj p (kind_of_family f) fs).
+Proof.
+  intros n f p fs Hin Ht Hw.
+  destruct (AP.Props.C03.C03_roundtrip _ Hw) as (y & Hy & Hn).
+  assert (Hs : shapes_ok genv (kind_of_family f) fs).
+  { destruct (wf_obj_parts genv p (kind_of_family f) fs Hw) as [_ Hfs].
+    exact (kind_shape genv AP.Props.C03.C03_whole_condition (kind_of_family f) fs Hfs). }
+  destruct (C07_gob_kind n f p fs Hin Ht Hs) as [Htop _]. destruct (Htop y Hy) as [fs' ->].
+  exists fs'. split; [exact Hy|exact Hn].
+Qed.
+
+(* JSON, item position and list position: the value sits in the `object` property of a Create activity / is the second
+   member of the `orderedItems` of an OrderedCollection (KindRt.in_item_position / in_list_position); the round trip
+   of the enclosing value (C01_roundtrip_partial, same hypotheses on the enclosing value) returns it there with its
+   kind and every property that was set *)
+Theorem C07_json_payload_item_position : forall n f p fs, In (n, f) all_names -> get_str F_Type fs = n ->
+  let x := IObj p (kind_of_family f) fs in
+  AP.Props.C01.wf_vocab (in_item_position x) = true -> (ddepth (in_item_position x) <= 64)%nat ->
+  exists b ofs fs', enc (in_item_position x) = Some b /\ dec b = Some (Ok (IObj true KActivity ofs)) /\
+                    getf F_Object ofs = Some (FItem (IObj true (kind_of_family f) fs')) /\
+                    forall g v, getf g fs = Some v -> getf g fs' = Some (JsonNorm.norm_fval layout_of v).
+Proof.
+  intros n f p fs _ _ x Hw Hd.
+  destruct (AP.Props.C01.C01_roundtrip_partial _ Hw Hd) as (b & He & _ & Hdec).
+  destruct (wf_norm_keeps layout_of JsonCodec.registry JsonCodec.load_switch tl_ActivityTypes tl_ActorTypes tl_LinkTypes
+              true KActivity _ Hw) as (ofs & Hn & Hk).
+  assert (Hx : AP.Props.C01.wf_vocab x = true).
+  { apply (wf_item_property layout_of JsonCodec.registry JsonCodec.load_switch tl_ActivityTypes tl_ActorTypes tl_LinkTypes
+             true KActivity _ F_Object x Hw eq_refl).
+    intros d Hdd. vm_compute in Hdd. injection Hdd as <-. reflexivity. }
+  destruct (wf_norm_keeps layout_of JsonCodec.registry JsonCodec.load_switch tl_ActivityTypes tl_ActorTypes tl_LinkTypes
+              p (kind_of_family f) fs Hx) as (fs' & Hnx & Hkx).
+  exists b, ofs, fs'. split; [exact He|]. split; [unfold AP.Props.C01.norm, in_item_position in Hdec; rewrite Hn in Hdec; exact Hdec|].
+  split; [|exact Hkx].
+  rewrite (Hk F_Object (FItem x) eq_refl). change (JsonNorm.norm_fval layout_of (FItem x)) with (FItem (JsonNorm.norm_item layout_of x)).
+  unfold x. rewrite Hnx. reflexivity.
+Qed.
+
+Theorem C07_json_payload_list_position : forall n f p fs, In (n, f) all_names -> get_str F_Type fs = n ->
+  let x := IObj p (kind_of_family f) fs in
+  AP.Props.C01.wf_vocab (in_list_position x) = true -> (ddepth (in_list_position x) <= 64)%nat ->
+  exists b ofs first fs', enc (in_list_position x) = Some b /\ dec b = Some (Ok (IObj true KOrdered ofs)) /\
+                    getf F_OrderedItems ofs = Some (FItems (Some [first; IObj true (kind_of_family f) fs'])) /\
+                    forall g v, getf g fs = Some v -> getf g fs' = Some (JsonNorm.norm_fval layout_of v).
+Proof.
+  intros n f p fs _ _ x Hw Hd.
+  destruct (AP.Props.C01.C01_roundtrip_partial _ Hw Hd) as (b & He & _ & Hdec).
+  destruct (wf_norm_keeps layout_of JsonCodec.registry JsonCodec.load_switch tl_ActivityTypes tl_ActorTypes tl_LinkTypes
+              true KOrdered _ Hw) as (ofs & Hn & Hk).
+  assert (Hx : AP.Props.C01.wf_vocab x = true).
+  { apply (wf_list_property layout_of JsonCodec.registry JsonCodec.load_switch tl_ActivityTypes tl_ActorTypes tl_LinkTypes
+             true KOrdered _ F_OrderedItems _ x Hw eq_refl).
+    intros d Hdd. vm_compute in Hdd. injection Hdd as <-. reflexivity. }
+  destruct (wf_norm_keeps layout_of JsonCodec.registry JsonCodec.load_switch tl_ActivityTypes tl_ActorTypes tl_LinkTypes
+              p (kind_of_family f) fs Hx) as (fs' & Hnx & Hkx).
+  exists b, ofs, (IIri false (B "https://example.com/first")), fs'.
+  split; [exact He|]. split; [unfold AP.Props.C01.norm, in_list_position in Hdec; rewrite Hn in Hdec; exact Hdec|].
+  split; [|exact Hkx].
+  rewrite (Hk F_OrderedItems _ eq_refl).
+  change (JsonNorm.norm_fval layout_of (FItems (Some [IIri false (B "https://example.com/first"); x])))
+    with (FItems (Some [IIri false (B "https://example.com/first"); JsonNorm.norm_item layout_of x])).
+  unfold x. rewrite Hnx. reflexivity.
+Qed.
+
+(* ---- non-vacuity, and what the conditions are for ---- *)
+Definition c07_person : list (fid * fval) :=
+  [(F_ID, Vocab.FStr (B "https://example.com/actors/alice")); (F_Type, Vocab.FStr (B "Person"));
+   (F_Name, FNlv (Some [(B "en", B "Alice")]));
+   (F_Inbox, FItem (IIri false (B "https://example.com/actors/alice/inbox")));
+   (F_PreferredUsername, FNlv (Some [(B "-", B "alice")]))].
+
+(* a Person actor satisfies every hypothesis of the kind and payload theorems, alone and in both positions; its
+   document carries the type name the kind theorems ask for *)
+Example C07_payload_hypotheses :
+  In (B "Person", FamActor) all_names /\ get_str F_Type c07_person = B "Person" /\
+  AP.Props.C01.wf_vocab (IObj false KActor c07_person) = true /\
+  AP.Props.C01.wf_vocab (in_item_position (IObj false KActor c07_person)) = true /\
+  AP.Props.C01.wf_vocab (in_list_position (IObj false KActor c07_person)) = true /\
+  Nat.leb (ddepth (in_list_position (IObj false KActor c07_person))) 64 = true /\
+  wf_gob genv (IObj false KActor c07_person) = true /\
+  (match enc (IObj false KActor c07_person) with
+   | Some b => match fj_parse b with Ok v => bytes_eqb (type_name_of v) (B "Person") | _ => false end
+   | None => false end) = true /\
+  (match enc (IObj false KActor c07_person) with
+   | Some b => match dec b with Some (Ok (IObj true KActor fs')) => bytes_eqb (get_str F_ID fs') (B "https://example.com/actors/alice") | _ => false end
+   | None => false end) = true.
+Proof. repeat split; try (vm_compute; reflexivity). vm_compute. auto 80. Qed.
+
+(* a JSONLoadItem switch in which Listen moved to the intransitive activities, and a gob decoder switch in which it
+   did, fail the conditions, and the diagnosis names the entry *)
+Example C07_moved_case_rejected :
+  let lsw' := fun n => if bytes_eqb n (B "Listen") then Some KIntransitive else JsonCodec.load_switch n in
+  let E' := {| ge_wfuncs := ge_wfuncs genv; ge_rfuncs := ge_rfuncs genv; ge_enc_methods := ge_enc_methods genv;
+               ge_dec_methods := ge_dec_methods genv; ge_sw_enc := ge_sw_enc genv; ge_sw_enc_default := ge_sw_enc_default genv;
+               ge_sw_dec := (([B "Listen"], B "OnIntransitiveActivity/unmapIntransitiveActivityProperties") :: ge_sw_dec genv);
+               ge_sw_dec_default := ge_sw_dec_default genv;
+               ge_sw_typer := ge_sw_typer genv; ge_sw_typer_default := ge_sw_typer_default genv;
+               ge_layout := ge_layout genv; ge_layout_endpoints := ge_layout_endpoints genv;
+               ge_leaf_w := ge_leaf_w genv; ge_leaf_r := ge_leaf_r genv; ge_leaf_layouts := ge_leaf_layouts genv; ge_sniff := ge_sniff genv;
+               ge_ptr_iri := ge_ptr_iri genv; ge_endpoints_codec := ge_endpoints_codec genv |} in
+  json_kind_cond JsonCodec.registry lsw' all_names = false /\
+  json_kind_first_bad JsonCodec.registry lsw' all_names = Some (B "Listen", Some KActivity, Some KIntransitive) /\
+  gob_kind_cond E' all_names = false /\
+  gob_kind_first_bad E' all_names = Some (B "Listen", Some KActivity, Some KActivity, Some KIntransitive).
+Proof. cbv zeta. repeat split; vm_compute; reflexivity. Qed.
